@@ -187,6 +187,44 @@ def hess_cases(draw, tier):
     return {"H": H * 10.0 ** e, "sub": sub, "tags": tags}
 
 
+@st.composite
+def long_hess_cases(draw, tier):
+    """(k+1) x k Hessenberg matrices with k past the blocking sizes 32 / 64 (the Arnoldi matrices of long restart
+    cycles); dense or banded upper part."""
+    k = draw(st.sampled_from([33, 64, 65] if tier == "quick" else [33, 64, 65, 100, 129]))
+    H, _ = draw(gen.long_qarray(k + 1, k, draw(st.sampled_from(["generic", "int", "sparse"]))))
+    band = draw(st.sampled_from([None, None, 1, 3, 40]))
+    for i in range(k + 1):
+        H[i, :max(0, i - 1)] = 0.0
+        if band is not None:
+            H[i, i + band + 1:] = 0.0
+    sub = draw(st.sampled_from(["as_is", "real_positive", "some_zero"]))
+    for j in range(k):
+        if sub == "real_positive":
+            H[j + 1, j] = [abs(H[j + 1, j, 0]) + 0.125, 0, 0, 0]
+        elif sub == "some_zero" and draw(st.integers(0, 7)) == 0:
+            H[j + 1, j] = 0.0
+    return {"H": H, "sub": sub, "tags": [sub, "long", "banded" if band is not None else "dense"]}
+
+
+@st.composite
+def long_tri_cases(draw, tier):
+    n = draw(st.sampled_from([33, 64, 65] if tier == "quick" else [33, 64, 65, 100, 129, 257]))
+    r = draw(st.integers(1, 3))
+    T, _ = draw(gen.long_qarray(n, n, draw(st.sampled_from(["generic", "sparse"]))))
+    T = T / (4.0 * n)                       # strictly diagonally dominant once the unit-modulus diagonal is set
+    rng = np.random.RandomState(draw(gen.seeds()))
+    d = rng.standard_normal((n, 4))
+    d = d / np.sqrt(np.sum(d * d, axis=1))[:, None]
+    exps = [0] * n
+    if draw(st.booleans()):
+        exps = [int(v) for v in rng.randint(-3, 4, size=n)]
+    for i in range(n):
+        T[i, i] = d[i] * 10.0 ** exps[i]
+    B, _ = draw(gen.long_qarray(n, r, "generic"))
+    return {"T": T, "B": B, "mode": "long", "exps": exps if n <= 40 else exps[:8] + ["..."]}
+
+
 def check_hess(case):
     out = Out()
     H = case["H"]
@@ -280,7 +318,7 @@ def check_tri(case):
                 err = ref.modulus(ref.qmm(Tm, X) - B)
                 out.le(name + ":T X = B", float(np.max(err / _tri_bound(Tm, X, B, n))), 1.0,
                        f"entrywise backward error/bound, diag exps {case['exps']}")
-    out.nontrivial = r >= 2 or any(abs(e) >= 3 for e in case["exps"])
+    out.nontrivial = r >= 2 or any(abs(e) >= 3 for e in case["exps"] if not isinstance(e, str))
     out.sample = {"n": n, "rhs": r, "mode": case["mode"], "exps": case["exps"]}
     return out
 
@@ -339,6 +377,10 @@ PROPERTY = Property(
         Clause("hess_qr", check_hess, strategy=hess_cases, budget={"quick": 500, "thorough": 8000}),
         Clause("triangular", check_tri, strategy=tri_cases, budget={"quick": 500, "thorough": 8000},
                fuzz={"runs": 3000, "procs": 3}),
+        Clause("hess_qr_long_dimension", check_hess, strategy=long_hess_cases, budget={"quick": 16, "thorough": 160},
+               shrink=False),
+        Clause("triangular_long_dimension", check_tri, strategy=long_tri_cases, budget={"quick": 16, "thorough": 160},
+               shrink=False),
         Clause("scalar_inverse", check_scalar, strategy=scalar_cases, budget={"quick": 600, "thorough": 8000}),
     ],
     assumptions=[
